@@ -31,7 +31,9 @@ def run(chk, tier, seed, replay):
                 "BooleanImage ramp images; distinct = distinct op/arg sequences; all non-trivial")
     chk.assumptions = ["pixels whose sampling stencil touched a border or fill value are not judged (valid-set bookkeeping)",
                        "samples exactly on rounding ties / float-fragile borders are not judged",
-                       "2-D images; thin-plate-spline warps are covered relationally in C04/C07"]
+                       "2-D images; piecewise-affine / thin-plate-spline warps are judged relationally against the real transform's own map "
+                       "(a TPS moves landmarks with its reverse-fitted spline, which is only approximately the inverse map: by design)",
+                       "derived scales (norm ratios, square roots) whose product with the shape is exactly integral / half-integral are not judged"]
     if replay:
         case = json.load(open(replay))["case"]
         chk.case("replay"); chk.sample([(e["op"], e["args"]) for e in case["beh"]["hist"]])
@@ -40,9 +42,12 @@ def run(chk, tier, seed, replay):
             chk.mismatch(case, bad)
         return
     with tlc.Scratch("c01") as s:
-        plan = [("depth2", "MC_Image_quick.cfg", {})]
+        # ext*: the derived members of the crop / rescale families, transform_about_centre with shears and non-uniform
+        # scales, warp_to_mask, pyramids and smooth PWA / TPS warps - alone on a 6x8 image and after one framing operation
+        plan = [("depth2", "MC_Image_quick.cfg", {}), ("ext_depth1", "MC_Image_ext68.cfg", {}), ("ext_depth2", "MC_Image_extq.cfg", {})]
         if tier == "thorough":
-            plan = [("depth2", "MC_Image_thorough.cfg", {}), ("sim3", "MC_Image_sim.cfg", dict(simulate=32, depth=4, seed=seed + 1))]
+            plan = [("depth2", "MC_Image_thorough.cfg", {}), ("sim3", "MC_Image_sim.cfg", dict(simulate=32, depth=4, seed=seed + 1)),
+                    ("ext_depth1", "MC_Image_ext68.cfg", {}), ("ext_depth2", "MC_Image_ext.cfg", {})]
         for label, cfg, kw in plan:
             out, r = generate(chk, label, "MC_Image", cfg, s, workers=16, timeout=3000, **kw)
             behs = tlc.read_emitted(out)
